@@ -747,6 +747,9 @@ impl Scenario for ExportScenario {
                 "GenFault" => {
                     let Some(reference) = reference.as_ref() else { continue };
                     let sink = op.str(0);
+                    if !DICT_SINKS.contains(&sink) {
+                        continue;
+                    }
                     let len = sink_len(reference, sink);
                     if len == 0 {
                         continue;
@@ -1261,6 +1264,9 @@ impl Scenario for SmallDicScenario {
                 "GenFault" => {
                     let Some((_, b)) = generated.as_ref() else { continue };
                     let sink = op.str(0);
+                    if !BIGRAM_SINKS.contains(&sink) {
+                        continue;
+                    }
                     let len = bigram_len(b, sink);
                     if len == 0 {
                         continue;
